@@ -1,6 +1,8 @@
 package opset13
 
 import (
+	"sort"
+
 	"github.com/advancedclimatesystems/gonnx/onnx"
 	"github.com/advancedclimatesystems/gonnx/ops"
 	"gorgonia.org/tensor"
@@ -44,6 +46,19 @@ func (s *Squeeze) Apply(inputs []tensor.Tensor) ([]tensor.Tensor, error) {
 		dimsToSqueeze, err = getDimsToSqueezeFromTensor(inputs[1], nDims)
 		if err != nil {
 			return nil, err
+		}
+
+		// Negative axes have been offset by now: every axis has to refer to a dimension
+		// of the input and may be given only once.
+		if !ops.AllInRange(dimsToSqueeze, 0, nDims-1) {
+			return nil, ops.ErrNotAllAxesInRange(nDims, nDims)
+		}
+
+		sortedDims := append([]int{}, dimsToSqueeze...)
+		sort.Ints(sortedDims)
+
+		if ops.HasDuplicates(sortedDims) {
+			return nil, ops.ErrInvalidInput("axes cannot have duplicate entries after offset", s)
 		}
 	}
 
